@@ -73,6 +73,10 @@ type Prog struct {
 	nRepoFns int
 	tags     string
 	cg       *callgraph.Graph
+	callers  map[*ssa.Function][]ssa.CallInstruction
+	closures map[*ssa.Function][]*ssa.MakeClosure
+	facts    map[*ssa.Function]*FuncFacts
+	repoFns  []*ssa.Function
 }
 
 func loadEnv() []string {
@@ -279,6 +283,9 @@ func (p *Prog) ConstObj(pkg, name string) *types.Const {
 // RepoFuncs returns all functions (including anonymous ones) with bodies defined in repository
 // rule-site packages, sorted by position.
 func (p *Prog) RepoFuncs() []*ssa.Function {
+	if p.repoFns != nil {
+		return p.repoFns
+	}
 	var out []*ssa.Function
 	for fn := range ssautil.AllFunctions(p.SSA) {
 		if len(fn.Blocks) == 0 || fn.Synthetic != "" {
@@ -298,5 +305,6 @@ func (p *Prog) RepoFuncs() []*ssa.Function {
 		}
 		return out[i].String() < out[j].String()
 	})
+	p.repoFns = out
 	return out
 }
